@@ -43,6 +43,7 @@ type Query {
   accountVal: Account
   accountBot: Account
   firstN(n: Int): [Item]
+  ofKind(kind: Kind, kinds: [Kind!]): [Item]
   stranger: Node
   strangers: [Node]
 }
@@ -180,6 +181,24 @@ func (q *Query) Pick(i int32) *Item {
 		return q.Items[i]
 	}
 	return nil
+}
+
+// OfKind filters the items by an enum argument (or a list of them).
+func (q *Query) OfKind(kind string, kinds []interface{}) []*Item {
+	called("Query.OfKind")
+	var out []*Item
+	for _, it := range q.Items {
+		ok := kind == "" && len(kinds) == 0 || string(it.Kind) == kind
+		for _, k := range kinds {
+			if fmt.Sprint(k) == string(it.Kind) {
+				ok = true
+			}
+		}
+		if ok {
+			out = append(out, it)
+		}
+	}
+	return out
 }
 
 // Label has a required and a defaulted argument.
@@ -452,6 +471,11 @@ var Requests = []struct {
 	{`query($o: Opts = {text: "d"}) { search(opts: $o) }`, nil},
 	{`query($o: Opts) { search(opts: $o) }`, map[string]interface{}{"o": map[string]interface{}{"tags": []interface{}{"v"}}}},
 	{`{ countdown(n: 3) name }`, nil},
+	{`{ ofKind(kind: LARGE) { id kind } small: ofKind(kinds: [SMALL]) { id } }`, nil},
+	{`query($k: Kind = SMALL) { ofKind(kind: $k) { id } }`, nil},
+	{`query($k: Kind) { ofKind(kind: $k) { id } }`, map[string]interface{}{"k": "LARGE"}},
+	{`query($ks: [Kind!]) { ofKind(kinds: $ks) { id } }`, map[string]interface{}{"ks": []interface{}{"SMALL", "LARGE", "SMALL", "LARGE", "SMALL", "LARGE", "SMALL", "LARGE", "SMALL", "LARGE", "SMALL", "LARGE"}}},
+	{`{ ofKind(kind: "LARGE") { id } }`, nil},
 	{`{ stranger { id } name }`, nil},
 	{`{ strangers { id } nodes { id } }`, nil},
 	{`{ strangers { __typename id ... on Other { note } } stranger { ... on Item { size } } }`, nil},
